@@ -99,9 +99,15 @@ def run_trace(tid, n, cls, mode, hidden_f, objs, rng, length, with_gaps, ops_wei
     minimal = D.minimal(n)
     expl = D.explorable(n)
 
+    excs = [""] * len(games)
+
     def apply_all(fn):
-        for g in games:
-            fn(g)
+        # an exception raised by the code under test is data for the specification, not a harness crash
+        for j, g in enumerate(games):
+            try:
+                fn(g)
+            except Exception as ex:  # noqa: BLE001
+                excs[j] = type(ex).__name__
 
     mc = [Coalition(c) for c in minimal]
     apply_all(lambda g: g.set_known_values([hidden_f[c] for c in minimal], mc))
@@ -110,9 +116,10 @@ def run_trace(tid, n, cls, mode, hidden_f, objs, rng, length, with_gaps, ops_wei
         out = []
         for j, g in enumerate(games):
             t = ctx.table(g)
-            t.update({"idem": -1, "fresh": -1, "bits1": -1, "g": NOGAP})
+            t.update({"idem": -1, "fresh": -1, "bits1": -1, "g": NOGAP, "exc": excs[j]})
             if extra:
                 t.update(extra[j])
+            excs[j] = ""
             out.append(t)
         return out
 
@@ -170,8 +177,11 @@ def run_trace(tid, n, cls, mode, hidden_f, objs, rng, length, with_gaps, ops_wei
                 fresh = IncompleteCooperativeGame(n, computer_for(objs[j]["comp"], objs[j]["r"]))
                 kc = sorted(known)
                 fresh.set_known_values([hidden_f[c] for c in kc], [Coalition(c) for c in kc])
-                fresh.compute_bounds()
-                x["fresh"] = 1 if D.raw_table(fresh) == raw else 0
+                try:
+                    fresh.compute_bounds()
+                    x["fresh"] = 1 if D.raw_table(fresh) == raw else 0
+                except Exception:  # noqa: BLE001
+                    x["fresh"] = 0 if not excs[j] else -1
                 if j == 0:
                     raw1 = raw
                 x["bits1"] = 1 if raw == raw1 else 0
@@ -181,7 +191,8 @@ def run_trace(tid, n, cls, mode, hidden_f, objs, rng, length, with_gaps, ops_wei
         ev["tabs"] = tabs(extra)
         trace["events"].append(ev)
         prev_op = op
-    return trace
+        yield None
+    yield trace
 
 
 FLOAT_SA = ["noisy_factory", "noisy_factory_square", "graph_random", "graph_cycle", "graph_geometric", "noisy_factory_fixed"]
@@ -199,10 +210,12 @@ def main():
     ap.add_argument("--length", type=int, default=14)
     ap.add_argument("--gaps", type=int, default=0)
     ap.add_argument("--reps", default="0,1,2", help="SAM repetition counts")
+    ap.add_argument("--interleave", type=int, default=0, help="advance all traces (all n) in one interpreter in random interleaving")
     a = ap.parse_args()
     rng = random.Random(a.seed * 7919 + hash(a.family) % 1000)
     reps = [int(x) for x in a.reps.split(",")]
     files = []
+    pending = []
     total_events = 0
     tid = 0
     for n in [int(x) for x in a.ns.split(",")]:
@@ -234,6 +247,16 @@ def main():
                         v = [x / 4 for x in v]
                 cls, mode = "SAM", "exact"
                 objs = [{"comp": "sac", "r": 0}] + [{"comp": "sam", "r": r} for r in reps]
+            elif fam == "cached":
+                kind = rng.random()
+                if kind < 0.4:
+                    v, cls = D.random_any_game(n, rng), "ANY"
+                elif kind < 0.8:
+                    v, cls = D.random_sa_game(n, rng), "SA"
+                else:
+                    v, cls = [x / 8 for x in D.random_sa_game(n, rng, sing=(-9, 9))], "SA"
+                mode = "exact"
+                objs = [{"comp": "sa", "r": 0}, {"comp": "sac", "r": 0}] if rng.random() < 0.5 else [{"comp": "sac", "r": 0}, {"comp": "sa", "r": 0}]
             elif fam == "any":
                 v = D.random_any_game(n, rng)
                 cls, mode = "ANY", "exact"
@@ -252,13 +275,40 @@ def main():
                 raise SystemExit("unknown family")
             length = a.length if not reveal_only else min(2 * len(D.explorable(n)) + 1, 2 * a.length + 1)
             w = (4, 2, 1, 3)
-            traces.append(run_trace(tid, n, cls, mode, v, objs, rng, length, bool(a.gaps), w, reveal_only))
+            gen = run_trace(tid, n, cls, mode, v, objs, rng, length, bool(a.gaps), w, reveal_only)
+            if a.interleave:
+                pending.append((n, gen))
+                continue
+            for out in gen:
+                if out is not None:
+                    traces.append(out)
             total_events += len(traces[-1]["events"])
+        if a.interleave:
+            continue
         path = f"{a.out}_{a.family}_n{n}.json"
         D.dump(path, {"traces": traces})
         files.append({"n": n, "path": path, "traces": len(traces), "events": sum(len(t["events"]) for t in traces),
                       "sample": {"tid": traces[0]["tid"], "cls": traces[0]["cls"], "hidden": traces[0]["hidden"],
                                  "ops": [[e["op"], e["c"]] for e in traces[0]["events"]][:12]}})
+    if a.interleave:
+        # all traces of all player counts advance in one interpreter, one public call at a time, in random order
+        done: dict[int, list] = {}
+        sched = random.Random(a.seed + 17)
+        while pending:
+            k = sched.randrange(len(pending))
+            n, gen = pending[k]
+            out = next(gen)
+            if out is not None:
+                done.setdefault(n, []).append(out)
+                pending.pop(k)
+        for n in sorted(done):
+            traces = done[n]
+            total_events += sum(len(t["events"]) for t in traces)
+            path = f"{a.out}_{a.family}_n{n}.json"
+            D.dump(path, {"traces": traces})
+            files.append({"n": n, "path": path, "traces": len(traces), "events": sum(len(t["events"]) for t in traces),
+                          "sample": {"tid": traces[0]["tid"], "cls": traces[0]["cls"], "hidden": traces[0]["hidden"],
+                                     "ops": [[e["op"], e["c"]] for e in traces[0]["events"]][:12]}})
     D.finish({"files": files, "events": total_events})
 
 
